@@ -20,7 +20,20 @@ def observe(h):
             "n_in": h.num_in_ports(n),
         }
     links = Counter((a.node.idx, a.offset, b.node.idx, b.offset) for a, b in h.links())
-    return {"nodes": nodes, "links": links, "root": h.root.idx}
+    # the same links as each end reports them (a preserved link is one both of its ports know about)
+    hi_out, hi_in = {}, {}
+    for (s, so, d, do) in links:
+        hi_out[s] = max(hi_out.get(s, -1), so)
+        hi_in[d] = max(hi_in.get(d, -1), do)
+    from_out, from_in = Counter(), Counter()
+    for n in h:
+        for off in range(-1, max(nodes[n.idx]["n_out"], hi_out.get(n.idx, -1) + 1)):
+            for q in h.linked_ports(n.out(off)):
+                from_out[(n.idx, off, q.node.idx, q.offset)] += 1
+        for off in range(-1, max(nodes[n.idx]["n_in"], hi_in.get(n.idx, -1) + 1)):
+            for q in h.linked_ports(n.inp(off)):
+                from_in[(q.node.idx, q.offset, n.idx, off)] += 1
+    return {"nodes": nodes, "links": links, "root": h.root.idx, "links_from_out_ports": from_out, "links_from_in_ports": from_in}
 
 
 def same_op(a, b) -> bool:
@@ -76,6 +89,12 @@ def check_insert(ctx, a_before, b_before, a_after, b_after, mapping, parent_idx,
         missing, extra = exp_links - got_links, got_links - exp_links
         kind = "order-links" if any(l[1] == -1 for l in list(missing) + list(extra)) else "links"
         V("iso", kind, {"missing": sorted(missing.elements()), "extra": sorted(extra.elements())})
+    inside = lambda c: Counter({l: k for l, k in c.items() if l[0] in image and l[2] in image})  # noqa: E731
+    for end in ("out", "in"):
+        per_port = a_after.get(f"links_from_{end}_ports")
+        if per_port is not None and inside(per_port) != inside(a_after["links"]):
+            missing, extra = inside(a_after["links"]) - inside(per_port), inside(per_port) - inside(a_after["links"])
+            V("iso", f"link-not-reported-by-its-{end}-port", {"missing": sorted(missing.elements())[:6], "extra": sorted(extra.elements())[:6]})
     # frame: everything A had before is unchanged
     ctx.checked("frame")
     for i, old in a_before["nodes"].items():
